@@ -51,6 +51,7 @@ def build_found_rule(rng, decoded, features=None, sections=None, binary=False, m
     cfg = {}
     items = []
     var = None
+    prev = None
     for (addr, mn, ops) in win:
         it = None
         if "valid_addr" in features and mn in JUMPS and ops and _is_hexstr(ops[0]) and var is None:
@@ -62,6 +63,10 @@ def build_found_rule(rng, decoded, features=None, sections=None, binary=False, m
             it = gen.instr_item(rng, mn, ops, substr_ok=substr_ok)
         if it is None:
             it = ANY_ITEM
+        # the same instruction as the one before it gets the same item: a run the `times` step below can collapse
+        if items and prev == (mn, ops) and items[-1] is not ANY_ITEM and it is not ANY_ITEM and "valid_addr" not in str(it):
+            it = copy.deepcopy(items[-1])
+        prev = (mn, ops)
         items.append(it)
     if var:
         cfg["valid_addr_range"] = var
@@ -80,13 +85,17 @@ def build_found_rule(rng, decoded, features=None, sections=None, binary=False, m
         out = []
         while j < len(items):
             k = j
-            while k + 1 < len(items) and items[k + 1] == items[j] and isinstance(items[j], str):
+            one_key_dict = isinstance(items[j], dict) and len(items[j]) == 1 and isinstance(next(iter(items[j].values())), list)
+            while k + 1 < len(items) and items[k + 1] == items[j] and (isinstance(items[j], str) or one_key_dict):
                 k += 1
             run = k - j + 1
             if run >= 2:
                 c = rng.randrange(3)
                 t = run if c == 0 else ({"min": rng.randrange(1, run + 1), "max": run + rng.randrange(0, 2)} if c == 1 else {"min": run, "max": run})
-                out.append({items[j]: {"times": t}})
+                if one_key_dict:
+                    out.append({**copy.deepcopy(items[j]), "times": t})  # name + operands: the sibling spelling
+                else:
+                    out.append({items[j]: {"times": t}})
             else:
                 it = items[j]
                 if rng.random() < 0.3:
@@ -496,9 +505,18 @@ def doc_faults(rng, rule_doc, macro_files, rule_rel="rule.yaml", max_per_kind=6,
             if len(path) >= 2 and isinstance(path[-1], int) and _is_instr_item_pos(path[1:]) and isinstance(node, (str, dict)):
                 item_paths.append((path, node))
         rng.shuffle(item_paths)
+
+        def _repeats(node):  # items that really stand for a run come first: ignoring their `times` changes the verdict
+            t = node.get("times") if isinstance(node, dict) else None
+            if t is None and isinstance(node, dict) and len(node) == 1 and isinstance(next(iter(node.values())), dict):
+                t = next(iter(node.values())).get("times")
+            lo = t if isinstance(t, int) else (t.get("min", 1) if isinstance(t, dict) else 1)
+            return 0 if isinstance(lo, int) and lo >= 2 else 1
+
+        item_paths_t = sorted(item_paths, key=lambda pn: _repeats(pn[1]))
         # `times` of another type than int / mapping (bool excluded: see DESIGN section 5, observation 4a)
         odd_times = [("str", "2"), ("float", 2.5), ("list", [2]), ("minstr", {"min": "1", "max": 2})]
-        for path, node in item_paths[:3]:
+        for path, node in item_paths_t[:3]:
             if isinstance(node, str) and node.startswith(("&",)):
                 continue
             shape = _item_shape(node)
